@@ -165,18 +165,30 @@ def string_nontrivial(ss):
     return len(ss) > 1 or any(c in s for s in ss for c in ('"', "'", BS))
 
 
+def corpus_cases():
+    import os
+    path = os.path.join(core.VERIF, "corpus", "C04", "cases.json")
+    out = []
+    for c in json.load(open(path)):
+        out.append({"type": c["type"], "text": c["text"], "expect": c.get("expect"), "kind": "corpus", "nt": True})
+    return out
+
+
 def gen_load_cases(chk):
-    cases = []
+    cases = corpus_cases()      # corpus first
     r0 = chk.rng.split("load")
     # --- STRING, exhaustive: every s over ALPHA_S up to L, both quote characters, alone; and followed by another string on the same line
-    L = 5 if chk.thorough else 4
+    L = 5 if chk.thorough else 3
     small = all_strings(ALPHA_S, L)
+    if not chk.thorough:      # a deterministic sample of the longer ones
+        rs = r0.split("exh-sample")
+        small += [rand_text(rs.split(i), ALPHA_S, 4 + i % 3) for i in range(400)]
     followers = ["x", "a" + BS, '"', "'", BS + '"']
     for i, s in enumerate(small):
         for q in ('"', "'"):
             ok = not s.endswith(BS)
             cases.append(mk("STRING", quote(q, s), [s] if ok else None, "string-exh", string_nontrivial([s])))
-            if len(s) <= (4 if chk.thorough else 3):
+            if len(s) <= (4 if chk.thorough else 2) or (not chk.thorough and i % 4 == 0):
                 f = followers[(i + (q == "'")) % len(followers)]
                 q2 = '"' if (i // 2) % 2 else "'"
                 ok2 = ok and not f.endswith(BS)
@@ -235,7 +247,7 @@ def gen_load_cases(chk):
     rawn = all_strings(ALPHA_N, 4 if chk.thorough else 3)
     for j, s in enumerate(rawn):
         for typ in ("INT", "FLOAT", "STRICTFLOAT", "NUMBER"):
-            if chk.thorough or (j + len(typ)) % 2 == 0:
+            if chk.thorough or (j + len(typ)) % 4 == 0:
                 cases.append(mk(typ, s, None, "num-raw"))
     for i in range(1500 if chk.thorough else 200):
         r = r0.split("nr%d" % i)
@@ -262,7 +274,7 @@ def gen_rx_groups(chk):
     jobs, groups = [], []
     r0 = chk.rng.split("rx")
     base, lang, _ = regex_tr.source_patterns()
-    LS, LN = (7, 6) if chk.thorough else (5, 4)
+    LS, LN = (6, 5) if chk.thorough else (4, 4)
     ascii1 = [chr(i) for i in range(128)] + ["a" + chr(i) for i in range(0, 128, 3)]
 
     def rnd(alpha, n, lo, hi, tag):
@@ -276,7 +288,7 @@ def gen_rx_groups(chk):
         for l in lists:
             for ch in chunked(l, 100):
                 groups.append({"job": ji, "kind": "list", "strings": ch})
-    nr = 600 if chk.thorough else 100
+    nr = 600 if chk.thorough else 60
     uni_s = rnd(ALPHA_S + UNI + ["b"], nr, 3, 24, "us")
     uni_n = rnd(ALPHA_N + UNI + [" ", "E", "7", "_"], nr, 3, 16, "un")
     long_s = rnd(ALPHA_S, nr, 8, 40, "ls")
@@ -286,7 +298,7 @@ def gen_rx_groups(chk):
         if name == "STRING":
             add(job, ALPHA_S, LS, [uni_s, long_s])
         elif name in ("BOOL", "ID"):
-            add(job, ALPHA_B, LN, [uni_n, ascii1])
+            add(job, ALPHA_B, LN if chk.thorough else 3, [uni_n, ascii1])
         else:
             add(job, ALPHA_N, LN, [uni_n, long_n, ascii1])
     for fn in sorted(lang):
@@ -299,7 +311,7 @@ def gen_rx_groups(chk):
             add((None, pat, re.M, "(%s)" % term), alpha, 4 if chk.thorough else 3, [rnd(alpha + UNI, nr // 2, 3, 14, "lg" + fn)])
     xr = rnd(ALPHA_X + ["T", "r", "u", "e", "B", "1", "_"], nr, 3, 14, "xr")
     for pat, flags in EXTRA:
-        add((None, pat, flags, "(%s)" % regex_tr.coq_of_pattern(pat)), ALPHA_X, 6 if chk.thorough else 4, [xr] + ([ascii1] if "\\" in pat else []))
+        add((None, pat, flags, "(%s)" % regex_tr.coq_of_pattern(pat)), ALPHA_X, 5 if chk.thorough else 3, [xr] + ([ascii1] if "\\" in pat else []))
     return jobs, groups
 
 
@@ -314,9 +326,13 @@ def group_expr(jobs, g):
     return "h_list %s %s %s" % (rx_env(flags), term, core.coq_list([cstr(s) for s in g["strings"]]))
 
 
-def validate_engine(chk, jobs, groups, impl_hash, udef, disagreements):
+def engine_exprs(jobs, groups):
+    costs = [(len(g["alpha"]) ** g["n"]) * (g["n"] + 1) if g["kind"] == "enum" else sum(len(x) + 1 for x in g["strings"]) * 3 for g in groups]
+    return [group_expr(jobs, g) for g in groups], costs
+
+
+def validate_engine(chk, jobs, groups, impl_hash, udef, disagreements, vals, errs):
     """compare one hash per group; on a mismatch re-run the group verbosely to name the strings"""
-    vals, errs = core.coq_eval("C04rx", IMPORTS + udef, [group_expr(jobs, g) for g in groups], shard=30)
     if errs:
         disagreements.append({"case": "coq evaluation (engine)", "model": errs[:2]})
     bad = []
@@ -441,11 +457,39 @@ def model_vals(mv):
     return out
 
 
+def balanced_eval(tag, udef, exprs, costs):
+    """coq_eval with one shard per process, expressions striped over the shards by decreasing cost"""
+    n = len(exprs)
+    if n == 0:
+        return [], []
+    k = min(core.NPROC, n)
+    order = sorted(range(n), key=lambda i: -costs[i])
+    per = -(-n // k)
+    slots = [[] for _ in range(k)]
+    for j, i in enumerate(order):
+        slots[j % k].append(i)
+    # pad so that every shard has exactly `per` expressions (coq_eval slices contiguously)
+    flat, owner = [], []
+    for sl in slots:
+        for i in sl:
+            flat.append(exprs[i])
+            owner.append(i)
+        for _ in range(per - len(sl)):
+            flat.append('""')
+            owner.append(None)
+    vals, errs = core.coq_eval(tag, IMPORTS + udef, flat, shard=per)
+    res = [None] * n
+    for i, v in zip(owner, vals):
+        if i is not None:
+            res[i] = v
+    return res, errs
+
+
 def chunked(xs, n):
     return [xs[i:i + n] for i in range(0, len(xs), n)]
 
 
-def run_model_load(cases, udef, tag="C04l"):
+def load_exprs(cases):
     by = {}
     for i, c in enumerate(cases):
         by.setdefault(c["type"], []).append(i)
@@ -454,7 +498,17 @@ def run_model_load(cases, udef, tag="C04l"):
         for ch in chunked(idxs, 40):
             exprs.append("l_batch E0 %s %s" % (BT[typ], core.coq_list([cstr(cases[i]["text"]) for i in ch])))
             owners.append(ch)
-    vals, errs = core.coq_eval(tag, IMPORTS + udef, exprs, shard=60)
+    return exprs, owners, [3 * sum(len(cases[i]["text"]) + 2 for i in ch) for ch in owners]
+
+
+def run_model_load(cases, udef, tag="C04l"):
+    exprs, owners, costs = load_exprs(cases)
+    vals, errs = balanced_eval(tag, udef, exprs, costs)
+    return load_results(cases, owners, vals, errs)
+
+
+def load_results(cases, owners, vals, errs):
+    errs = list(errs)
     res = [None] * len(cases)
     for ch, v in zip(owners, vals):
         if v is None:
@@ -469,8 +523,10 @@ def run_model_load(cases, udef, tag="C04l"):
 
 
 def _t(chk, label):
+    import os
     import time
-    chk.cov.setdefault("phase_wall_s", {})[label] = round(time.time() - chk.t0, 1)
+    if os.environ.get("VERIF_TIMING"):      # developer aid only; not part of the evidence by default
+        chk.cov.setdefault("phase_wall_s", {})[label] = round(time.time() - chk.t0, 1)
 
 
 def run(chk):
@@ -510,12 +566,14 @@ def run(chk):
             impl_hash[gi] = h
 
     # ---- (a) engine validation: Rx vs Python re
-    n_rx = validate_engine(chk, jobs, groups, impl_hash, udef, disagreements)
-    _t(chk, "engine-eval")
+    e_exprs, e_costs = engine_exprs(jobs, groups)
+    l_exprs, l_owners, l_costs = load_exprs(cases)
+    allvals, allerrs = balanced_eval("C04", udef, e_exprs + l_exprs, e_costs + l_costs)
+    _t(chk, "coq-eval")
+    n_rx = validate_engine(chk, jobs, groups, impl_hash, udef, disagreements, allvals[:len(e_exprs)], allerrs)
 
     # ---- (b) whole path: textX vs load_many
-    mvals, errs = run_model_load(cases, udef)
-    _t(chk, "load-eval")
+    mvals, errs = load_results(cases, l_owners, allvals[len(e_exprs):], [])
     if errs:
         disagreements.append({"case": "coq evaluation (load)", "model": errs[:2]})
     for c, mv in zip(cases, mvals):
@@ -536,14 +594,14 @@ def run(chk):
     chk.cov["disagreements_checked"] = n_rx + len(cases)
     chk.cov["rule"] = (
         "whole path: `Model: v*=T;` loaded by textX vs BaseTypes.load_many on (i) every string over {a,space,\",',\\,newline} up to length %d written "
-        "between either quote with only that quote escaped, alone and followed by a second string on the same line, (ii) random longer/unicode strings in "
+        "(quick: + 400 sampled of length 4-6) between either quote with only that quote escaped, alone and followed by a second string on the same line, (ii) random longer/unicode strings in "
         "sequences, (iii) random ints (1-40 digits, sign, '+', leading zeros) through INT and NUMBER, (iv) random floats (decimal, random bit patterns, "
         "extremes) in repr/%%e/%%E/%%f/%%g/%%.17g/'+'/'5.'/'.5'/'1e5' forms through FLOAT, STRICTFLOAT, NUMBER, mixed int/float NUMBER sequences, "
         "(v) all BOOL spellings and pairs, (vi) raw/malformed texts for every type (error paths, backtracking). engine: Model/Rx.v vs the compiled regex "
         "objects of textx.lang (+ grammar-language terminals + %d extra patterns with lazy/bounded/look-around/anchors/flags) on every string up to a "
         "length bound over small alphabets and random unicode strings, at every start position. non-trivial = a written value the oracle checks (strings: "
         "contains a quote or backslash, or several strings) / a regex with at least one matching position; distinct by (type, text) / (pattern, flags, text)"
-        % (5 if chk.thorough else 4, len(EXTRA)))
+        % (5 if chk.thorough else 3, len(EXTRA)))
     chk.assumptions += [
         "translators regex_tr.py (pattern text by ast, structure by Python's own re._parser) and basetype_tr.py (processor lambdas by ast)",
         "Model/Rx.v engine and the `v*=T` loading loop of Model/BaseTypes.v are modelled, tied by the differential runs above",
